@@ -403,6 +403,51 @@ def handle(job):
             r2 = apply(job['then'])
             rec['then'] = {'op': job['then'], 'ret': r2['ret'], 'post': storeobs.observe(OWN)}
         return {'recs': [rec]}
+    if mode == 'iso':
+        # a second connection looks at the database at every callback of the operation
+        load_snapshot(job.get('snap'))
+        for op in job.get('prefix', []):
+            apply(op)
+        pre = storeobs.observe(OWN)
+        views, counter = [], [0]
+        r = apply(job['op'], handler=storeobs.watching_handler(views, counter))
+        post = storeobs.observe(OWN)
+        rec = {'op': job['op'], 'pre': pre, 'post': post, 'callbacks': counter[0],
+               'views': [[w['from'], w['to'], 'busy' if 'busy' in w['v'] else 'seen',
+                          w['v'] if 'busy' not in w['v'] else {}] for w in views]}
+        rec.update(r)
+        return {'recs': [rec]}
+    if mode == 'crash':
+        # the operation runs in a child process that dies at its k-th callback
+        import subprocess
+        import sys
+        d = load_snapshot(job.get('snap'))
+        for op in job.get('prefix', []):
+            apply(op)
+        pre = storeobs.observe(OWN)
+        close_db()
+        jf = base_dir() / 'crashjob.json'
+        jf.write_text(json.dumps([{'mode': 'crashchild', 'dir': str(d), 'op': job['op'], 'k': job['k']}]))
+        p = subprocess.run([sys.executable, __file__, str(jf), str(base_dir() / 'crashout.json')],
+                           capture_output=True, text=True, timeout=600)
+        journal = sorted(x.name for x in d.iterdir() if x.name != 'wn.db')
+        use_db(d)
+        post = storeobs.observe(OWN)
+        rec = {'op': job['op'], 'pre': pre, 'post': post,
+               'ret': 'exc:crash' if p.returncode == 77 else f'child:{p.returncode}',
+               'fault': {'kind': 'crash', 'k': job['k'], 'count': job['k'],
+                         'at': 'callback' if p.returncode == 77 else '~'},
+               'left_beside_db': journal}
+        if p.returncode not in (0, 77):
+            rec['msg'] = (p.stderr or '')[-300:]
+        if job.get('then'):
+            r2 = apply(job['then'])
+            rec['then'] = {'op': job['then'], 'ret': r2['ret'], 'post': storeobs.observe(OWN)}
+        return {'recs': [rec]}
+    if mode == 'crashchild':
+        use_db(Path(job['dir']))
+        apply(job['op'], handler=storeobs.dying_handler(job['k'], [0]))
+        return {'recs': []}
     raise ValueError(mode)
 
 
